@@ -336,6 +336,79 @@ pub fn main(args: &[String]) {
                 }
             }
         }
+        "groups" => {
+            // definition groups built to be accepted and to terminate: functions calling later and earlier siblings, functions
+            // recursive on a decreasing argument that also call a sibling, computed definitions reached through functions, local
+            // groups (one or two definitions) inside function bodies, the result taken under further binders
+            for _ in 0..count {
+                let nf = r.gen_range(2..5usize);
+                let nc = r.gen_range(0..3usize);
+                // rank: a function calls only functions of higher rank (no cycles); textual order is independent of rank
+                let mut rank: Vec<usize> = (0..nf).collect();
+                rank.shuffle(&mut r);
+                let with_pred = r.gen_bool(0.4);
+                // computed definitions a function depends on (transitively)
+                let mut deps: Vec<std::collections::BTreeSet<usize>> = vec![Default::default(); nf];
+                let mut body: Vec<String> = vec![String::new(); nf];
+                let mut by_rank: Vec<usize> = (0..nf).collect();
+                by_rank.sort_by_key(|i| std::cmp::Reverse(rank[*i]));
+                for &i in &by_rank {
+                    let higher: Vec<usize> = (0..nf).filter(|j| rank[*j] > rank[i]).collect();
+                    let k = r.gen_range(1..5);
+                    let callee = if higher.is_empty() { None } else { Some(higher[r.gen_range(0..higher.len())]) };
+                    let choice = r.gen_range(0..7);
+                    let (b, d): (String, Vec<usize>) = match (choice, callee) {
+                        (0, Some(j)) => (format!("f{j} x + {k}"), vec![j]),
+                        (1, Some(j)) => (format!("if x <= 0 then {k} else f{i} (x - 1) + f{j} 0"), vec![j]),
+                        (2, Some(j)) if with_pred => (format!("if x <= 0 then 0 else (if p 0 then f{i} (x - 1) + f{j} 1 else {k})"), vec![j]),
+                        (3, Some(j)) => (format!("(a = x + {k}; f{j} a)"), vec![j]),
+                        (4, Some(j)) => (format!("(a = x + {k}; u = 0; f{j} a + u)"), vec![j]),
+                        (5, _) if nc > 0 => { let m = r.gen_range(0..nc); deps[i].insert(m); (format!("x * {k} + c{m}"), vec![]) }
+                        (6, Some(j)) => (format!("if x <= 0 then f{j} x else f{i} (x - 1)"), vec![j]),
+                        _ => (format!("x * {k} + {}", r.gen_range(0..4)), vec![]),
+                    };
+                    for j in d {
+                        let dj = deps[j].clone();
+                        deps[i].extend(dj);
+                    }
+                    body[i] = b;
+                }
+                // computed definitions: c_m may use c_(m-1) and functions whose dependencies are all earlier
+                let mut cdefs = vec![];
+                for m in 0..nc {
+                    let ok: Vec<usize> = (0..nf).filter(|i| deps[*i].iter().all(|d| *d < m)).collect();
+                    let e = match (r.gen_range(0..3), ok.is_empty(), m) {
+                        (0, false, _) => format!("f{} {}", ok[r.gen_range(0..ok.len())], r.gen_range(0..3)),
+                        (1, _, 1..) => format!("c{} + {}", m - 1, r.gen_range(1..4)),
+                        _ => format!("{} + {}", r.gen_range(0..5), r.gen_range(0..5)),
+                    };
+                    cdefs.push(format!("c{m} : int = {e}"));
+                }
+                // textual order: functions anywhere, computed definitions in their order
+                let mut slots: Vec<String> = (0..nf).map(|i| format!("f{i} : (int -> int) = (x : int) => {}", body[i])).collect();
+                if with_pred {
+                    slots.push(format!("p : (int -> bool) = (m : int) => m == {}", r.gen_range(0..2)));
+                }
+                slots.shuffle(&mut r);
+                for c in cdefs {
+                    // insert keeping the relative order of the computed definitions: after the previous one
+                    let lo = slots.iter().rposition(|s| s.starts_with('c')).map_or(0, |p| p + 1);
+                    let at = r.gen_range(lo..=slots.len());
+                    slots.insert(at, c);
+                }
+                let top = r.gen_range(0..nf);
+                let arg = r.gen_range(0..4);
+                let main = match r.gen_range(0..4) {
+                    0 => format!("f{top} {arg}"),
+                    1 => format!("((q : int) => f{top} q) {arg}"),
+                    2 => format!("((q : int) => (w = q + 1; f{top} w)) {arg}"),
+                    _ if nc > 0 => format!("f{top} {arg} + c{}", nc - 1),
+                    _ => format!("f{top} (f{top} {arg})"),
+                };
+                let sep = if r.gen_bool(0.5) { "; " } else { "\n" };
+                emit(format!("{}{sep}{main}", slots.join(sep)), "groups");
+            }
+        }
         "groundindex" => {
             // conversion must COMPUTE: f : p (E) -> int applied to x : p (c) with E closed arithmetic and c a literal; accepted iff E
             // evaluates to c (every operator of the normaliser, negative operands, division toward zero, comparisons)
